@@ -20,4 +20,6 @@ theorem decode_encode (m : Msg) (h : WF m) (rest : Bytes) :
     decode (encodeBytes m ++ rest) (size m) = .ok (m, rest) :=
   QuickTimer.decode_encode ops (fun t => by cases t <;> rfl) (fun t => by cases t <;> decide) m h rest _
 
+theorem wfBool_iff (m : Msg) : wfBool m = true ↔ WF m := QuickTimer.wfBool_iff m
+
 end PyAirtouch.Lemmas.At4FF20
